@@ -20,7 +20,7 @@ Recorded ==
 
 Apply(s, e) ==
     CASE e.ev = "reset"   -> P0
-      [] e.ev = "cfg"     -> PCfg(s, e.keep)
+      [] e.ev = "cfg"     -> PCfg3(s, e.keep, IF "notgt" \in DOMAIN e THEN e.notgt ELSE FALSE, IF "notgterr" \in DOMAIN e THEN e.notgterr ELSE FALSE)
       [] e.ev = "call"    -> PCallOp(Dirty(s), e.id, e.op, e.cb, e.ref, e.k)
       [] e.ev = "rootcancel" -> PRootCancel(s)
       [] e.ev = "ret"     -> PRet(s, e.id, e.res, e.val, e.err)
